@@ -395,7 +395,7 @@ func canonRows(rs [][]kvql.Column) []string {
 // ---------------------------------------------------------------- Gallina printer
 
 // coqStr renders bytes as a Coq string term.  Printable ASCII uses a literal; anything else
-// goes through [bs] (list of byte codes), defined in Base/Bytes.v.
+// goes through [bsn] (list of byte codes), defined in Base/Bytes.v.
 func coqStr(b string) string {
 	plain := true
 	for i := 0; i < len(b); i++ {
@@ -411,7 +411,7 @@ func coqStr(b string) string {
 	for i := 0; i < len(b); i++ {
 		p[i] = fmt.Sprint(int(b[i]))
 	}
-	return "(bs [" + strings.Join(p, ";") + "])"
+	return "(bsn [" + strings.Join(p, ";") + "])"
 }
 
 func coqList(items []string) string { return "[" + strings.Join(items, "; ") + "]" }
